@@ -7,7 +7,7 @@ From Coq Require Import List ZArith NArith String Bool.
 From SCC Require Import Base.Sexp Lang.FunSyn Lang.CoreSyn Lang.AxSyn Lang.AxSize Lang.FsSize Lang.CoreSize
      Model.Fun2Core Model.Focus Model.Shrink Model.SizeDefs Model.Linearize Model.Backend
      Model.Uniquify Proof.Fun2CoreProof Proof.SizeLin Proof.SizeCodegen Proof.SizeShrink Proof.SizeFocus Proof.SizeGen Proof.SizeUniquify Model.SizeFun Proof.SizeFun2CoreFv Proof.SizeFun2Core Proof.SizeFun2CoreProg
-     Model.ParMoves Model.LinCheck Model.X86 Model.SizeWf Proof.SizeParMoves Proof.SizeExchange Proof.SizeCodegenWf Proof.SizeX86 Proof.SizePipeline Proof.Fun2CoreExamples.
+     Model.ParMoves Model.LinCheck Model.X86 Model.SizeWf Proof.SizeParMoves Proof.SizeExchange Proof.SizeCodegenWf Proof.SizeX86 Proof.SizePipeline Proof.Fun2CoreExamples Proof.SizeFun2CoreRefute.
 Import ListNotations.
 Open Scope N_scope.
 
@@ -232,6 +232,16 @@ Proof.
   exact (fun_occ_le_size p).
 Qed.
 Print Assumptions C19_fun2core_size.
+
+(* the form STATED in round 1 (fun2core_size_statement above, with the parameters + binders of a
+   definition as second factor) quantifies over all values of type fcprog, ill-scoped ones included, and
+   is false of the model for the calibrated constant 12: Proof/SizeFun2CoreRefute.v, a definition without
+   binders mentioning 40 variables bound nowhere under 40 nested `case (if ..)`: 322 source nodes, 3966 Core
+   nodes > 12 * 322 * (1 + 0).  The type checker rejects that program; the proved bound C19_fun2core_size
+   counts the distinct typed occurrences (40 here) instead of the binders. *)
+Theorem C19_fun2core_size_statement_unscoped_refuted : ~ fun2core_size_statement 12.
+Proof. exact fun2core_size_statement_12_refuted. Qed.
+Print Assumptions C19_fun2core_size_statement_unscoped_refuted.
 
 (* in the size alone: quadratic, for every program the translation accepts *)
 Theorem C19_fun2core_size_quadratic : forall p c, compile_prog p = Fun2Core.Ok c ->
